@@ -476,6 +476,17 @@ def drawn_reconciliation(draw, max_obj=8, max_sp=8, max_fam=4, costs="free", ran
         if fam_alphabet:
             fnames = draw(fresh_names(len(fams), fam_alphabet, max_size=6))
             fmap = dict(zip(fams, fnames))
+        # an ancestral object named like a leaf of some species, "<species>_<suffix>" (any letter case): only
+        # leaves take their species from such names, an ancestor so named is still an ancestor
+        internal = [n for n in inst.onodes if inst.ochildren[n]]
+        sleaves = [x for x in inst.snodes if not inst.schildren[x]]
+        if internal and chance(draw, 1, 4):
+            n = internal[draw(st.integers(0, len(internal) - 1))]
+            sp = smap[sleaves[draw(st.integers(0, len(sleaves) - 1))]]
+            sp = draw(st.sampled_from([sp, sp.lower(), sp.upper(), sp.swapcase()]))
+            new = f"{sp}_{draw(st.integers(0, 99))}"
+            if new not in omap.values():
+                omap[n] = new
     else:
         omap, smap, fmap = {}, {}, {}
     ocol = draw(colours(len(inst.onodes))) if colour else None
